@@ -8,8 +8,12 @@
   delivered, in delivery order.
 -/
 import PgGen.C09Facts
+import PgGen.C08Guards
 import PgProofs.Notify
 import PgProofs.NotifySpec
+import PgProofs.NotifyOrder
+import PgProofs.NotifyEdit
+import PgProofs.NotifyBatch
 namespace Pg.C09
 open T
 open Pg.C08 (Atom Key NotifyKind)
@@ -17,12 +21,23 @@ open Pg.C08 (Atom Key NotifyKind)
 /-! ## Generated obligations -/
 
 /-- Which entry points notify, and how, is what the model assumes: accessor writes and `append`
-under the flag, `rebind` as the caller says, `update` never, `clear`/`reverse`/`popitem` nobody. -/
+under the flag, `rebind` as the caller says, `update` never; `clear` / `popitem` / `sort` / `reverse`
+under the flag (THE TREE WITH fixes/C09-F55.patch; on the tree without it this obligation breaks and the
+oracle reports the known finding F55). -/
 theorem C09_table :
     genNotify .setKey = [.flag, .flag] ∧ genNotify .delKey = [.flag] ∧ genNotify .append = [.flag] ∧
     genNotify .extend = [.flag, .none, .none] ∧
     genNotify .rebind = [.param, .param, .param] ∧ genNotify .update = [.skip] ∧
-    genNotify .clear = [.none, .none] ∧ genNotify .reverse = [.none] ∧ genNotify .popitem = [.none] := by
+    -- with fixes/C09-F55.patch: clear / popitem / sort / reverse notify under the flag
+    genNotify .clear = [.flag, .flag] ∧ genNotify .reverse = [.flag] ∧ genNotify .popitem = [.flag] ∧
+    genNotify .sort = [.flag] ∧ genDelIndexNormalized = true ∧
+    -- the position-shifting list calls: `insert`, `__delitem__` (index and slice) and `__setitem__` (slice)
+    -- notify under the flag; `pop` / `remove` have no notification of their own and delegate to `del self[i]`,
+    -- `*=` to `clear` / `extend`
+    genNotify .insert = [.flag] ∧ genNotify .delIdx = [.flag, .none] ∧ genNotify .remove = [.none] ∧
+    genNotify .setSlice = [.flag] ∧ genNotify .delSlice = [.flag] ∧ genNotify .imul = [.none] ∧
+    (Pg.C08.genGuard .l_pop).delegates = [.l_delitem] ∧ (Pg.C08.genGuard .l_remove).delegates = [.l_delitem] ∧
+    (Pg.C08.genGuard .l_imul).delegates = [.l_clear, .l_extend] := by
   decide
 
 /-- Every site that changes the contents of a node (both write primitives, `del` on lists,
@@ -35,16 +50,14 @@ theorem C09_invalidate_table : genInvalidateOnWrite = true ∧ genResetOnSkip = 
 /-- Inside `notify_on_change(False)` nothing is delivered, whatever the call. -/
 theorem C09_silent_off (root : T) (recv : Path) (op : Op) :
     (step root recv false op).events = [] := by
-  cases op <;> simp only [step, finish, rawStep, Bool.false_and, Bool.false_eq_true, if_false] <;>
-    (repeat' split) <;> rfl
+  cases op <;> simp only [step, finish, Bool.false_and, Bool.false_eq_true, if_false, applyEdit_events_off,
+    applyKeyEdit_events_off] <;> (repeat' split) <;> first | rfl | exact applyEdit_events_off _ _ _ | exact applyKeyEdit_events_off _ _ _
 
-/-- `Dict.update` (skip_notification=True) and the mutators that notify nobody deliver nothing
-even when notification is enabled. -/
-theorem C09_silent_skip (n : Bool) (root : T) (recv : Path) (op : Op)
-    (h : op.kind = .update ∨ op.kind = .clear ∨ op.kind = .reverse ∨ op.kind = .popitem) :
-    (step root recv n op).events = [] := by
-  cases op <;> simp [Op.kind] at h <;>
-    simp only [step, finish, rawStep, Bool.false_and, Bool.false_eq_true, if_false] <;> (repeat' split) <;> rfl
+/-- `Dict.update` (skip_notification=True) delivers nothing even when notification is enabled. -/
+theorem C09_silent_skip (n : Bool) (root : T) (recv : Path) (kvs : List (Key × T)) :
+    (step root recv n (.update kvs)).events = [] := by
+  simp only [step, finish, Bool.false_and, Bool.false_eq_true, if_false]
+  (repeat' split) <;> rfl
 
 /-! ## The notification contract
 
@@ -98,6 +111,242 @@ theorem C09_exactly_once (root : T) (hwf : WF root) (ups : List (Update × Path)
   exact (filterMap_recv_sublist (fun r => (entriesFor r.1 ups).isEmpty)
     (fun r => { recv := r.2, entries := entriesFor r.1 ups }) (fun _ => rfl) _).nodup hwf.2
 
+/-- ORDER ("children before parents"), for every tree, every batch of updates, with no hypothesis
+on the key types of siblings (KeyPath order is a strict total order since fix 49638f7: ints sort
+before strs; `PgProofs/NotifyOrder.lean`): if the receiver of the `j`-th delivered event lives
+strictly below the receiver of the `i`-th one, it was notified earlier (`j < i`). Receivers are
+identified with their nodes through `allSubs` (identities of subscribing nodes are distinct, `WF`). -/
+theorem C09_order (root : T) (hwf : WF root) (ups : List (Update × Path)) (i j : Nat) (ei ej : Event)
+    (pi pj : Path)
+    (hi : (notifications root ups)[i]? = some ei) (hj : (notifications root ups)[j]? = some ej)
+    (hpi : (pi, ei.recv) ∈ allSubs root []) (hpj : (pj, ej.recv) ∈ allSubs root [])
+    (k : Key) (r : Path) (hbelow : pj = pi ++ k :: r) : j < i := by
+  rw [notifications_eq, List.getElem?_map] at hi hj
+  cases hgi : (delivered root ups)[i]? with
+  | none => simp [hgi] at hi
+  | some gi =>
+    cases hgj : (delivered root ups)[j]? with
+    | none => simp [hgj] at hj
+    | some gj =>
+      simp only [hgi, hgj, Option.map_some, Option.some.injEq] at hi hj
+      subst hi; subst hj
+      have hmi := delivered_mem_allSubs hwf ups gi (List.mem_of_getElem? hgi)
+      have hmj := delivered_mem_allSubs hwf ups gj (List.mem_of_getElem? hgj)
+      have e1 : (gi.1, gi.2.1) = (pi, gi.2.1) := eq_of_nodup_map_snd _ hwf.2 _ hmi _ hpi rfl
+      have e2 : (gj.1, gj.2.1) = (pj, gj.2.1) := eq_of_nodup_map_snd _ hwf.2 _ hmj _ hpj rfl
+      have e1' : gi.1 = pi := (Prod.mk.inj e1).1
+      have e2' : gj.1 = pj := (Prod.mk.inj e2).1
+      exact order_delivered hwf ups i j gi gj hgi hgj k r (by rw [e1', e2']; exact hbelow)
+
+/-- The dispatch sequence is descending in KeyPath order (what `sorted(..., reverse=True)` yields). -/
+theorem C09_dispatch_sorted (root : T) (ups : List (Update × Path)) :
+    (delivered root ups).Pairwise fun a b => Pg.C08.pathLt a.1 b.1 = false :=
+  sortDesc_pairwise _
+
+/-- KeyPath order on the model's paths is a strict total order, and an ancestor sorts before
+everything below it. -/
+theorem C09_path_order (p q r : Path) (k : Key) :
+    Pg.C08.pathLt p p = false ∧
+    (Pg.C08.pathLt p q = true → Pg.C08.pathLt q p = false) ∧
+    (Pg.C08.pathLt p q = true → Pg.C08.pathLt q r = true → Pg.C08.pathLt p r = true) ∧
+    (p ≠ q → Pg.C08.pathLt p q = true ∨ Pg.C08.pathLt q p = true) ∧
+    Pg.C08.pathLt p (p ++ k :: r) = true :=
+  ⟨pathLt_irrefl p, pathLt_asymm p q, pathLt_trans p q r, pathLt_total p q, pathLt_prefix p k r⟩
+
+/-- Instance: the position-shifting list calls (`insert`, `del l[i]` / `pop` / `remove`, slice
+assignment, `del` slice, `*=`) end in `finish` with the updates of their edit, all owned by the
+list itself; with notification on their events satisfy the contract. -/
+theorem C09_contract_edit (root : T) (recv : Path) (f : List T → Option Edit) (m : Meta)
+    (items : List (Key × T)) (e : Edit)
+    (hg : getAt root recv = some (.node m .list items)) (he : f (items.map (·.2)) = some e)
+    (hwf : WF (resetChain (mapAt (setVals e.vals) root recv) recv)) :
+    (applyEdit root recv true f).events.Perm
+      (specNotifs (resetChain (mapAt (setVals e.vals) root recv) recv)
+        (e.ents.map fun x => ({ path := recv ++ [Key.i x.1], old := x.2.1, new := x.2.2 }, recv))) := by
+  unfold applyEdit
+  simp only [hg, he]
+  exact C09_contract_finish _ hwf _
+
+/-! ## Truthfulness of the recorded old / new values -/
+
+/-- One write at any depth (accessor write, `del`, `append`, each pair of a `rebind` / `extend` /
+`update`): the FieldUpdate names the written location (`recv ++ [k']`, `k'` = the key, or the new
+last position for a list index past the end), its `old` is the value at that location before the
+write and its `new` the value there after it (`none` = MISSING_VALUE: nothing there). -/
+theorem C09_truthful_write (root r' : T) (parent : Path) (k : Key) (v : Option T) (u : Update)
+    (hk : KeysNodup root) (hl : ListIndexed root)
+    (hw : writeAt root [] parent k v = some (r', some u)) :
+    ∃ k', u.path = parent ++ [k'] ∧ getAt root u.path = u.old ∧ getAt r' u.path = u.new := by
+  obtain ⟨k', hp, ho, hn⟩ := writeAt_truthful parent root [] k v r' u hk hl hw
+  simp only [List.nil_append] at hp
+  exact ⟨k', hp, by rw [hp]; exact ho, by rw [hp]; exact hn⟩
+
+/-- A whole batch (`rebind` with any number of pairs, `extend`, `update`: the write loop `writeAll`),
+on a well-formed tree (distinct keys, lists indexed `0..n-1`) with well-formed values: when the
+reported locations are pairwise unrelated (none at or below another), every recorded `old` is the
+value at that location *before the call* and every `new` the value there *after the call* … -/
+theorem C09_truthful_batch (root r' : T) (recv : Path) (pairs : List (Path × T)) (ups : List (Update × Path))
+    (hw : WFK root) (hv : ∀ pv ∈ pairs, WFK pv.2) (h : writeAll root recv pairs [] = some (r', ups))
+    (hun : (ups.map (·.1.path)).Pairwise Unrelated) :
+    ∀ x ∈ ups, getAt root x.1.path = x.1.old ∧ getAt r' x.1.path = x.1.new :=
+  (writeAll_truthful recv pairs root r' ups hw hv h).2.2 hun
+
+/-- … and nothing else changes: every location unrelated to all reported ones holds after the
+call what it held before (so the reported locations are *exactly* the changed ones). -/
+theorem C09_batch_frame (root r' : T) (recv : Path) (pairs : List (Path × T)) (ups : List (Update × Path))
+    (hw : WFK root) (hv : ∀ pv ∈ pairs, WFK pv.2) (h : writeAll root recv pairs [] = some (r', ups))
+    (L : Path) (hL : ∀ x ∈ ups, Unrelated x.1.path L) : getAt r' L = getAt root L :=
+  (writeAll_truthful recv pairs root r' ups hw hv h).2.1 L hL
+
+/-- Why the locations must be unrelated: in the dependent batch `rebind({'n': {'k': 0}, 'n.k': 1})`
+the second update records `old = 0`, the value the *first pair of the same call* put there; before
+the call there was nothing at `n.k`. (The real code records the same; the oracle only demands
+truthful values for batches of unrelated locations.) -/
+theorem C09_truthful_needs_unrelated :
+    ∃ (root r' : T) (pairs : List (Path × T)) (ups : List (Update × Path)),
+      writeAll root [] pairs [] = some (r', ups) ∧ ∃ x ∈ ups, getAt root x.1.path ≠ x.1.old := by
+  refine ⟨.node ⟨1, false, none⟩ .dict [],
+    _, [([Key.s "n"], .node ⟨0, false, none⟩ .dict [(Key.s "k", .leaf (.int 0))]), ([Key.s "n", Key.s "k"], .leaf (.int 1))],
+    _, rfl, ?_⟩
+  refine ⟨_, List.mem_cons_of_mem _ (List.mem_singleton.2 rfl), ?_⟩
+  simp [getAt, child, lookup]
+
+/-- The edits of the position-shifting list calls: every reported `old` is the item that was at
+that position before the call (deletions: the removed item at the position it had; replacements: the
+replaced item), insertions report MISSING as `old`. -/
+theorem C09_truthful_edit_old (notifyOn : Bool) (op : Op) (xs : List T) (e : Edit)
+    (h : (match op with
+      | .insert i v => editInsert i v xs | .delIdx i => editDelIdx i xs | .remove a => editRemove a xs
+      | .delSlice a b st => editDelSlice a b st xs | .setSlice a b st vs => editSetSlice notifyOn a b st vs xs
+      | .imul k => editIMul k xs | .clear => editClear xs | .reverse => editReverse xs | .sort => editSort xs
+      | _ => none) = some e) :
+    ∀ x ∈ e.ents, x.2.1 = none ∨ x.2.1 = xs[x.1]? := by
+  cases op <;> simp only [] at h <;> try (cases h; done)
+  case insert i v => simp only [editInsert, Option.some.injEq] at h; subst h; simp
+  case delIdx i =>
+    simp only [editDelIdx] at h; split at h
+    · cases h
+    · simp only [Option.some.injEq] at h; subst h; simp
+  case remove a =>
+    simp only [editRemove] at h; split at h
+    · cases h
+    · simp only [Option.some.injEq] at h; subst h; simp
+  case delSlice a b st =>
+    simp only [editDelSlice] at h; split at h
+    · cases h
+    · simp only [Option.some.injEq] at h; subst h
+      intro x hx
+      simp only [List.mem_map] at hx
+      obtain ⟨p, _, rfl⟩ := hx
+      exact Or.inr rfl
+  case imul k =>
+    simp only [editIMul] at h; split at h
+    · simp only [editClear, Option.some.injEq] at h; subst h
+      intro x hx; exact Or.inr (by simpa using clearEnts_old 0 xs x hx)
+    · simp only [Option.some.injEq] at h; subst h
+      intro x hx
+      exact Or.inl (appendEnts_old _ _ x hx)
+  case clear =>
+    simp only [editClear, Option.some.injEq] at h; subst h
+    intro x hx; exact Or.inr (by simpa using clearEnts_old 0 xs x hx)
+  case reverse =>
+    simp only [editReverse, Option.some.injEq] at h; subst h
+    exact fun x hx => Or.inr (movedEnts_old _ _ _ _ x hx)
+  case sort =>
+    simp only [editSort] at h; split at h
+    · simp only [Option.some.injEq] at h; subst h
+      exact fun x hx => Or.inr (movedEnts_old _ _ _ _ x hx)
+    · split at h
+      · simp only [Option.some.injEq] at h; subst h; simp
+      · cases h
+  case setSlice a b st vs =>
+    simp only [editSetSlice] at h; split at h
+    · cases h
+    · split at h
+      · split at h
+        · cases h
+        · simp only [Option.some.injEq] at h; subst h
+          exact sliceEnts_old _ _ _ _ _
+      · split at h
+        · cases h
+        · simp only [Option.some.injEq] at h; subst h
+          exact replEnts_old _ _ _
+
+/-- … and every reported `new` is the item found at that position after the call (insertions,
+moves, appended copies); removals report MISSING. (Slice assignment: `C09_truthful_edit_old` and the
+correspondence; its `new` side is not proved.) -/
+theorem C09_truthful_edit_new (op : Op) (xs : List T) (e : Edit)
+    (h : (match op with
+      | .insert i v => editInsert i v xs | .delIdx i => editDelIdx i xs | .remove a => editRemove a xs
+      | .delSlice a b st => editDelSlice a b st xs | .imul k => editIMul k xs
+      | .clear => editClear xs | .reverse => editReverse xs | .sort => editSort xs
+      | _ => none) = some e) :
+    ∀ x ∈ e.ents, x.2.2 = none ∨ x.2.2 = e.vals[x.1]? := by
+  cases op <;> simp only [] at h <;> try (cases h; done)
+  case insert i v =>
+    simp only [editInsert, Option.some.injEq] at h; subst h
+    intro x hx
+    simp only [List.mem_singleton] at hx; subst hx
+    right
+    simp only []
+    rw [insertAt_get]
+    unfold Pg.C08.insertPos
+    split <;> omega
+  case delIdx i =>
+    simp only [editDelIdx] at h; split at h
+    · cases h
+    · simp only [Option.some.injEq] at h; subst h; simp
+  case remove a =>
+    simp only [editRemove] at h; split at h
+    · cases h
+    · simp only [Option.some.injEq] at h; subst h; simp
+  case delSlice a b st =>
+    simp only [editDelSlice] at h; split at h
+    · cases h
+    · simp only [Option.some.injEq] at h; subst h
+      intro x hx
+      simp only [List.mem_map] at hx
+      obtain ⟨p, _, rfl⟩ := hx
+      exact Or.inl rfl
+  case imul k =>
+    simp only [editIMul] at h; split at h
+    · simp only [editClear, Option.some.injEq] at h; subst h
+      exact fun x hx => Or.inl (clearEnts_new 0 xs x hx)
+    · simp only [Option.some.injEq] at h; subst h
+      intro x hx
+      obtain ⟨h1, h2⟩ := appendEnts_new _ _ x hx
+      right
+      rw [h2, List.getElem?_append_right h1]
+  case clear =>
+    simp only [editClear, Option.some.injEq] at h; subst h
+    exact fun x hx => Or.inl (clearEnts_new 0 xs x hx)
+  case reverse =>
+    simp only [editReverse, Option.some.injEq] at h; subst h
+    exact fun x hx => Or.inr (movedEnts_new _ _ _ _ x hx)
+  case sort =>
+    simp only [editSort] at h; split at h
+    · simp only [Option.some.injEq] at h; subst h
+      exact fun x hx => Or.inr (movedEnts_new _ _ _ _ x hx)
+    · split at h
+      · simp only [Option.some.injEq] at h; subst h; simp
+      · cases h
+
+/-- Instance: `Dict.clear()` / `Dict.popitem()` (fix C09-F55) end in `finish` with one update per
+removed key; with notification on their events satisfy the contract. -/
+theorem C09_contract_keyedit (root : T) (recv : Path)
+    (f : List (Key × T) → Option (List (Key × T) × List (Key × Option T × Option T))) (m : Meta)
+    (items items' : List (Key × T)) (ents : List (Key × Option T × Option T))
+    (hg : getAt root recv = some (.node m .dict items)) (he : f items = some (items', ents))
+    (r' : T) (hr : r' = resetChain (mapAt (fun t => match t with
+          | .leaf a => .leaf a
+          | .node m k _ => .node m k items') root recv) recv) (hwf : WF r') :
+    (applyKeyEdit root recv true f).events.Perm
+      (specNotifs r' (ents.map fun x => ({ path := recv ++ [x.1], old := x.2.1, new := x.2.2 }, recv))) := by
+  subst hr
+  unfold applyKeyEdit
+  simp only [hg, he]
+  exact C09_contract_finish _ hwf _
+
 /-! ## Freshness of the memoised derived state -/
 
 /-- The values a call inserts carry no stale cache (they are fresh plain values). -/
@@ -107,6 +356,8 @@ def OpFresh : Op → Prop
   | .extend vs => ∀ v ∈ vs, Fresh v
   | .rebind pairs => ∀ pv ∈ pairs, Fresh pv.2
   | .update kvs => ∀ kv ∈ kvs, Fresh kv.2
+  | .insert _ v => Fresh v
+  | .setSlice _ _ _ vs => ∀ v ∈ vs, Fresh v
   | _ => True
 
 private theorem finish_fresh (r' : T) (ups : List (Update × Path)) (n : Bool) (h : Fresh r') :
@@ -116,7 +367,8 @@ private theorem finish_fresh (r' : T) (ups : List (Update × Path)) (n : Bool) (
   · exact h
 
 /-- FRESHNESS, full strength: after any modelled call — accessor write, `del`, `append`, batched
-`rebind` with any number of pairs, `update`, `clear`, `reverse`, `popitem` — at any depth, with
+`rebind` with any number of pairs, `update`, `clear`, `reverse`, `sort`, `popitem`, `insert`, `pop` / `remove`,
+slice assignment, `del` slice, `*=` — at any depth, with
 notification on or off, every memoised fact of every node is either not computed or equal to a
 fresh computation on the current contents. -/
 theorem C09_fresh (n : Bool) (root : T) (recv : Path) (op : Op) (hf : Fresh root) (hv : OpFresh op) :
@@ -190,14 +442,52 @@ theorem C09_fresh (n : Bool) (root : T) (recv : Path) (op : Op) (hf : Fresh root
       obtain ⟨kv, hkv, rfl⟩ := List.mem_map.1 h
       exact hv kv hkv
   | clear =>
-    exact mapAt_resetChain_fresh rawClear (fun _ => rfl)
-      (fun m kd items _ => ⟨[], rfl, by simp [FreshItems]⟩) recv root hf
+    simp only [step]
+    split
+    · exact applyEdit_fresh root recv n _ hf (fun xs e hxs he y hy => by
+        simp only [editClear, Option.some.injEq] at he; subst he; simp at hy)
+    · exact applyKeyEdit_fresh root recv n _ hf (fun items r hfi he => by
+        simp only [dictClear, Option.some.injEq] at he; subst he; simp [FreshItems])
   | reverse =>
-    exact mapAt_resetChain_fresh rawReverse (fun _ => rfl)
-      (fun m kd items h => ⟨_, rfl, freshItems_reindex _ (freshItems_reverse _ h)⟩) recv root hf
+    exact applyEdit_fresh root recv n _ hf (fun xs e hxs he y hy => by
+      simp only [editReverse, Option.some.injEq] at he; subst he
+      exact hxs y (by simpa using hy))
+  | sort =>
+    exact applyEdit_fresh root recv n _ hf (fun xs e hxs he y hy => by
+      simp only [editSort] at he
+      split at he
+      · simp only [Option.some.injEq] at he; subst he
+        simp only [List.mem_map] at hy
+        obtain ⟨i, _, rfl⟩ := hy
+        simp [Fresh]
+      · split at he
+        · simp only [Option.some.injEq] at he; subst he; exact hxs y hy
+        · cases he)
   | popitem =>
-    exact mapAt_resetChain_fresh rawPopitem (fun _ => rfl)
-      (fun m kd items h => ⟨_, rfl, freshItems_dropLast _ h⟩) recv root hf
+    exact applyKeyEdit_fresh root recv n _ hf (fun items r hfi he => by
+      simp only [dictPopitem] at he
+      split at he
+      · cases he
+      · simp only [Option.some.injEq] at he; subst he
+        exact freshItems_dropLast _ hfi)
+  | insert i v =>
+    refine applyEdit_fresh root recv n _ hf (fun xs e hxs he y hy => ?_)
+    rcases editInsert_vals i v he y hy with h | h
+    · exact hxs y h
+    · rw [h]; exact hv
+  | delIdx i =>
+    exact applyEdit_fresh root recv n _ hf (fun xs e hxs he y hy => hxs y (editDelIdx_vals i he y hy))
+  | remove a =>
+    exact applyEdit_fresh root recv n _ hf (fun xs e hxs he y hy => hxs y (editRemove_vals a he y hy))
+  | setSlice a b st vs =>
+    refine applyEdit_fresh root recv n _ hf (fun xs e hxs he y hy => ?_)
+    rcases editSetSlice_vals n a b st vs he y hy with h | h
+    · exact hxs y h
+    · exact hv y h
+  | delSlice a b st =>
+    exact applyEdit_fresh root recv n _ hf (fun xs e hxs he y hy => hxs y (editDelSlice_vals a b st he y hy))
+  | imul k =>
+    exact applyEdit_fresh root recv n _ hf (fun xs e hxs he y hy => hxs y (editIMul_vals k he y hy))
 
 /-- A root dict whose cache is filled, holding one leaf. -/
 def exRoot : T :=
@@ -211,6 +501,9 @@ theorem C09_stale_without_invalidation :
   simp [Fresh, FreshItems, deriveItems, setKv]
 
 /-! Non-vacuity -/
+example : WFK exRoot := by
+  simp [WFK, exRoot, KeysNodup, KeysNodupItems, ListIndexed, ListIndexedItems]
+example : Unrelated [Key.s "a", Key.i 0] [Key.s "b"] := by simp [Unrelated]
 example : Fresh exRoot := by simp [exRoot, Fresh, FreshItems, deriveItems]
 example : WF exRoot := by simp [WF, exRoot, KeysNodup, KeysNodupItems, allSubs, allSubsItems]
 example : (step exRoot [] true (.setKey (Key.s "k") (.leaf (.int 2)))).events.length = 1 := by
